@@ -134,6 +134,16 @@ def _args_c03(ck, mod, f, label, call, a, A, where, ci, li):
 
 
 def _args_c04(ck, mod, f, label, call, a, A, where, mi, li):
+    # the length must reach check_tag at full width: a narrower parameter wipes only len mod 2^w bytes of a long rejected message
+    g = mod.fns.get(CT)
+    if g is not None and g.blocks:
+        pi_ = g.param_index("plaintext_len")
+        wbits = int(g.params[pi_]["ty"][1:]) if pi_ is not None and g.params[pi_]["ty"].startswith("i") else None
+        cbits = int(f.params[li]["ty"][1:]) if f.params[li]["ty"].startswith("i") else None
+        if wbits is not None and cbits is not None:
+            ck.ob(wbits >= cbits, "R-C04-ARGS", f.name, "wipe-length-width[%s]" % label, "check_tag takes the plaintext length at the full %d-bit width of clen" % cbits,
+                  "check_tag's plaintext_len parameter is %d bits wide, clen is %d bits: for messages of 2^%d bytes or more only (length mod 2^%d) bytes are wiped on rejection" % (wbits, cbits, wbits, wbits),
+                  where=where)
     # C04: plaintext pointer is the entry m, length is clen - 8
     okp = ir.ptr_base(f, a[0]) == (("a", mi), 0)
     ck.ob(okp, "R-C04-ARGS", f.name, "wipe-start[%s]" % label, "check_tag receives the start of the plaintext buffer (entry value of m)",
